@@ -91,3 +91,59 @@ theorem C19_saved (c : Cfg) (s0 : Sess) (es : List Ev) (k : Nat)
   exact ⟨by rw [tr.store]; exact lookup_pushAll _ _ _ tr.numbered k hk, numbered_get _ _ tr.numbered k hk⟩
 
 example : ∃ x ∈ [H.mk 0 true] ++ [H.mk 1 false], x.verdict = false := ⟨⟨1, false⟩, by simp, rfl⟩
+
+/-! ### outgoing handlers see the message exactly as it will be transmitted -/
+
+theorem rangeOutT_all {α} (hs : List (HT α)) (m : α) (h : ∀ x ∈ hs, ∀ y, (x.run y).2 = true) :
+    rangeOutT hs m = (hs.map (·.id), afterAll hs m, true) := by
+  induction hs generalizing m with
+  | nil => rfl
+  | cons x r ih =>
+    have hx := h x (by simp) m
+    have := ih (x.run m).1 (fun y hy => h y (by simp [hy]))
+    simp only [rangeOutT, hx, if_true, this, List.map_cons, afterAll, List.foldl_cons]
+
+theorem afterAll_append {α} (a b : List (HT α)) (m : α) : afterAll (a ++ b) m = afterAll b (afterAll a m) := by
+  simp [afterAll, List.foldl_append]
+
+/-- nothing refuses ⇒ what is transmitted is the serialization of the message **as the last handler left it**,
+    all-types handlers first, then the handlers of its type -/
+theorem C19_transmits_completed {α} (allH typedH : List (HT α)) (m : α) (ser : α → Option Bytes)
+    (h : ∀ x ∈ allH ++ typedH, ∀ y, (x.run y).2 = true) :
+    handlerSendT allH typedH m ser = ((allH ++ typedH).map (·.id), ser (afterAll (allH ++ typedH) m)) := by
+  have ha := rangeOutT_all allH m (fun x hx => h x (by simp [hx]))
+  have ht := rangeOutT_all typedH (afterAll allH m) (fun x hx => h x (by simp [hx]))
+  simp [handlerSendT, ha, ht, afterAll_append]
+
+/-- every handler is given the message as completed by all handlers before it (in particular a type-specific
+    handler sees what the all-types handlers — the store handler among them — did) -/
+theorem C19_seen {α} (hs : List (HT α)) (m : α) (k : Nat) (hk : k < hs.length) :
+    (seenBy hs m)[k]? = some ((hs[k]).id, afterAll (hs.take k) m) := by
+  induction hs generalizing m k with
+  | nil => simp at hk
+  | cons x r ih =>
+    cases k with
+    | zero => simp [seenBy, afterAll]
+    | succ k =>
+      have := ih (x.run m).1 k (by simpa using hk)
+      simp only [seenBy, List.getElem?_cons_succ, this, List.getElem_cons_succ, List.take_succ_cons, afterAll,
+        List.foldl_cons]
+
+/-- the old model is the special case of handlers that leave the message alone -/
+theorem handlerSendT_const (allH typedH : List H) (b : Option Bytes) :
+    handlerSendT (allH.map fun h => ({ id := h.id, run := fun m => (m, h.verdict) } : HT Unit))
+                 (typedH.map fun h => ({ id := h.id, run := fun m => (m, h.verdict) } : HT Unit)) () (fun _ => b)
+      = handlerSend allH typedH b := by
+  have key : ∀ hs : List H, rangeOutT (hs.map fun h => ({ id := h.id, run := fun m => (m, h.verdict) } : HT Unit)) ()
+      = ((rangeOut hs).1, (), (rangeOut hs).2) := by
+    intro hs
+    induction hs with
+    | nil => rfl
+    | cons x r ih =>
+      simp only [List.map_cons, rangeOutT, rangeOut]
+      cases x.verdict <;> simp [ih]
+  simp [handlerSendT, handlerSend, key]
+
+-- a store handler that stamps the sequence number, then a type handler that completes the message
+example : handlerSendT [stampH 0 true true] [stampH 1 true true, stampH 2 true false] [65] some
+    = ([0, 1, 2], some [65, 53, 56, 61, 104, 48, 1, 53, 56, 61, 104, 49, 1]) := by decide
